@@ -135,6 +135,25 @@ func init() {
 		},
 	})
 	register(&Property{
+		ID: "C46",
+		Explanation: "Decides structural necessary conditions of 'a read through the mount returns exactly the requested range', not the range arithmetic: (fuse-read) file.Open stores at cumsize[i+1] the running sum after adding the size the index reports for Content[i] in the same iteration, and fails when a size is unknown; openFile.getBlobAt uses f.node.Content[i] both as the key of the blob cache and as the ID it loads on a miss; openFile.Read hands getBlobAt its loop variable, which starts at a position derived from sort.Search over cumsize and goes up by one per round; every byte of the response is copied from a blob obtained that way into a slice of resp.Data, and the response is cut to the sum of what copy reported; Read and getBlobAt store through nothing reachable from their receiver, the state concurrent readers of one open file share (the shared blob cache's own locking is C47). Not decided: the search predicate and the offset subtraction (that startContent is the blob containing the offset and that the first blob is entered at the right byte), the behaviour past the end of the file, and the FUSE library's handling of the response buffer. Planned as not applicable in DESIGN section 4; claimed at level 'other' for exactly these clauses.",
+		Assumptions: commonAssumptions,
+		Technique:   "static analysis: value-shape checks of the accumulator and loop-variable phis, provenance of copied bytes, store-effect enumeration (go/ssa)",
+		Run:         func(c *eng.Ctx) { ruleFuseRead(c) },
+		Controls: []Control{
+			{Name: "cumsize-stored-before-adding", File: "internal/fuse/file.go",
+				Old: "		bytes += uint64(size)\n		cumsize[i+1] = bytes\n", New: "		cumsize[i+1] = bytes\n		bytes += uint64(size)\n", Rule: "fuse-read"},
+			{Name: "cache-key-of-the-previous-blob", File: "internal/fuse/file.go",
+				Old: "	blob, err = f.root.blobCache.GetOrCompute(f.node.Content[i], func() ([]byte, error) {", New: "	blob, err = f.root.blobCache.GetOrCompute(f.node.Content[max(i-1, 0)], func() ([]byte, error) {", Rule: "fuse-read"},
+			{Name: "response-length-is-request-size", File: "internal/fuse/file.go",
+				Old: "	resp.Data = resp.Data[:readBytes]\n", New: "	resp.Data = resp.Data[:req.Size-remainingBytes+readBytes-readBytes]\n", Rule: "fuse-read"},
+			{Name: "read-writes-to-the-open-file", File: "internal/fuse/file.go",
+				Old: "	dst := resp.Data[0:req.Size]\n", New: "	f.cumsize[startContent] += 0\n	dst := resp.Data[0:req.Size]\n", Rule: "fuse-read"},
+			{Name: "blob-index-skips-one", File: "internal/fuse/file.go",
+				Old: "	for i := startContent; remainingBytes > 0 && i < len(f.cumsize)-1; i++ {", New: "	for i := startContent; remainingBytes > 0 && i < len(f.cumsize)-1; i += 2 {", Rule: "fuse-read"},
+		},
+	})
+	register(&Property{
 		ID: "C47",
 		Explanation: "Decides the structural half of the blob cache contract: (cache-locks) every access to Cache.c, Cache.free and Cache.inProgress holds Cache.mu (evict is the LRU callback and runs inside LRU calls); (lru-calls-locked) every method call on the simplelru instance is made with mu held; (budget-symmetry) `free` is changed only in add (minus the entry's size, after a loop that evicts while size > free, so free stays >= 0) and in evict (plus the evicted entry's size), both sizes computed by the same cap(blob)+overhead expression, and entries larger than the whole cache are refused before anything is evicted; (inprogress-cleanup) GetOrCompute registers the id in inProgress before unlocking, every path that leaves after registration deletes the entry and closes the channel exactly via the deferred function, and waiters re-check the cache after the channel is closed; (cache-result-provenance, shared with C03) GetOrCompute returns success only on a cache hit — with the cached blob — or with the results of the caller's own computation, and a failed computation is never inserted: a waiter whose peer failed, produced an uncacheable blob or was evicted in between computes the value itself. Not decided: that the LRU library evicts in recency order, and at-most-once computation per id under all interleavings.",
 		Assumptions: commonAssumptions,
